@@ -182,3 +182,11 @@ Example stores_order :
   got_items (snd (run (store 3) (init []) [OPut 0%nat (3, 0); OPut 1%nat (1, 1); OPut 2%nat (2, 2);
                                           OGet 3%nat tt; OGet 4%nat tt])) = [(3, 0); (1, 1)].
 Proof. vm_compute. split; reflexivity. Qed.
+
+(** (A) the tie to /repo's current source: every function this property's models were transcribed from has, in the
+    tree this run is checking, the normalised source it had when the models were validated (hashes regenerated from
+    /repo into gen/Generated.v on every run; pins in gen/SourcePins.v).  A change to one of them invalidates the
+    transcription until it is re-validated. *)
+From UsimGen Require SourcePins Pin_C19.
+Theorem C19_modelled_source_unchanged : forallb SourcePins.pin_ok Pin_C19.pins = true.
+Proof. exact Pin_C19.src_unchanged. Qed.
